@@ -37,16 +37,16 @@ def run(F, R, tier):
     for r in resets:
         R.ob("C19-a", "the graph is reset only inside Builder::restart", r["_top"]["path"] == "graph::Builder::restart", "`*graph = ModuleGraph::new(..)` in %s: an existing graph's entries would be discarded" % r["_top"]["path"], where(r))
     rs = F.body("graph::Builder::restart")
-    cb = [n for n in rs["_nodes"] if n["k"] == "Assign" and peel(n["l"]).get("field") == "fill_pass_mode" and ctor_of(peel(n["r"])) == "graph::FillPassMode::CacheBusting"]
+    cb = [n for n in rs["_nodes"] if n["k"] == "Assign" and field_of(n["l"]) == "fill_pass_mode" and ctor_of(peel(n["r"])) == "graph::FillPassMode::CacheBusting"]
     bad, _ = must_pass(F, rs["body"]["value"], lambda n: n in cb)
     R.ob("C19-a", "restart switches to CacheBusting on every path (no second restart)", len(cb) == 1 and not bad, "restart does not set fill_pass_mode = CacheBusting", rs["file"])
-    st = [n for n in rs["_nodes"] if n["k"] == "Assign" and peel(n["l"]).get("field") == "state"]
+    st = [n for n in rs["_nodes"] if n["k"] == "Assign" and field_of(n["l"]) == "state"]
     R.ob("C19-a", "restart discards the pending state together with the graph", len(st) == 1, "pending state survives a restart", rs["file"])
     callers = [n for n in F.all_nodes() if callee_matches(n, ["Builder::restart"])]
     R.floor("C19-a callers of restart", len(callers), 1)
     for c in callers:
         g = guards_at(F, c)
-        ok = c["_top"]["path"] == "graph::Builder::build" and any(x.kind == "cond" and x.pol and any(mentions_call(y, ["Builder::resolve_pending"]) for y in through_locals(x.node)) for x in g) and len([x for x in g if x.kind == "cond"]) == 1
+        ok = c["_top"]["path"] == "graph::Builder::build" and any(x.kind == "cond" and x.pol and any(mentions_call(y, ["Builder::resolve_pending"]) for y in through_locals(x.node)) for x in g) and len([x for x in g if x.kind == "cond" and not x.derived]) == 1
         R.ob("C19-a", "restart is only reached when resolve_pending asked for it", ok, "restart called from %s under %s" % (c["_top"]["path"], [x.text() for x in g]), where(c))
     # true returns of resolve_pending / resolve_pending_jsr_specifiers
     rpj = F.body("graph::Builder::resolve_pending_jsr_specifiers")
@@ -100,7 +100,7 @@ def run(F, R, tier):
                 split_cond(clo["body"]["value"], True, conds)
                 ok = any(x.kind == "cond" and not x.pol and x.node.get("k") == "MethodCall" and x.node["name"] == "contains" and peel(x.node["recv"]).get("field") == "roots" for x in conds)
         R.ob("C19-b", "only roots the graph does not have yet are loaded", ok, "loaded roots are `%s`" % (expr_text(src)[:80] if src else expr_text(fors[0]["iter"])), where(fors[0]))
-        ext = [n for n in bd["_nodes"] if n.get("k") == "MethodCall" and n["name"] == "extend" and peel(n["recv"]).get("field") == "roots"]
+        ext = [n for n in bd["_nodes"] if n.get("k") == "MethodCall" and n["name"] == "extend" and field_of(n["recv"]) == "roots"]
         R.ob("C19-b", "the new roots are added to the graph's roots", len(ext) == 1 and peel_value(ext[0]["args"][0]).get("lid") == it.get("lid"), "graph.roots not extended with the filtered roots", bd["file"])
         st = [s for s in walk(fors[0]["body"]) if s.get("k") == "Struct" and s.get("adt") == "graph::LoadOptionsRef"]
         if st:
@@ -140,7 +140,7 @@ def run(F, R, tier):
     if R.ob("C19-c", "reload loop found", len(fors) == 1, "shape changed", rl["file"]):
         lp = fors[0]
         var = pat_bindings(lp["pat"])[0]["lid"]
-        rm = [n for n in walk(lp["body"]) if n.get("k") == "MethodCall" and n["name"] == "remove" and peel(n["recv"]).get("field") == "module_slots"]
+        rm = [n for n in walk(lp["body"]) if n.get("k") == "MethodCall" and n["name"] == "remove" and field_of(n["recv"]) == "module_slots"]
         ld = [n for n in walk(lp["body"]) if callee_matches(n, ["Builder::load"])]
         ok = len(rm) == 1 and len(ld) == 1 and peel_value(rm[0]["args"][0]).get("lid") == var and may_reach(F, rm[0], ld[0], scope=lp["body"]) and not may_reach(F, ld[0], rm[0], scope=lp["body"])
         R.ob("C19-c", "the stale entry is evicted before the specifier is loaded again", ok,
@@ -152,7 +152,7 @@ def run(F, R, tier):
             if st:
                 f = {x["name"]: x["e"] for x in st[0]["fields"]}
                 R.ob("C19-c", "the evicted specifier is the one reloaded", peel_value(f["specifier"]).get("lid") == var, "reloads `%s`" % expr_text(f["specifier"]), where(ld[0]))
-        others = [n for n in rl["_nodes"] if n.get("k") == "MethodCall" and n["name"] in ("clear", "retain", "remove") and peel(n["recv"]).get("field") in ("module_slots", "redirects") and n not in rm]
+        others = [n for n in rl["_nodes"] if n.get("k") == "MethodCall" and n["name"] in ("clear", "retain", "remove") and field_of(n["recv"]) in ("module_slots", "redirects") and n not in rm]
         R.ob("C19-c", "reload alters no other entry", not others, "reload also does `%s`" % (expr_text(others[0]) if others else ""), rl["file"])
         it = peel_value(lp["iter"])
         ok = False
